@@ -4,7 +4,7 @@ set -e
 cd "$(dirname "$0")"
 LIB=$(pwd)/spec/lib:$(pwd)/spec/algo:$(pwd)/spec/kernels:$(pwd)/spec/objects:$(pwd)/spec/trace
 fail=0
-for f in spec/*/*.tla; do
+for f in spec/*/*.tla spec/*/*/*.tla; do
   d=$(dirname "$f"); b=$(basename "$f")
   if ! (cd "$d" && java -DTLA-Library="$LIB" -cp /opt/veriftools/tla/tla2tools.jar:/opt/veriftools/tla/CommunityModules-deps.jar tla2sany.SANY "$b" > /tmp/sany.$$ 2>&1) || grep -q "Semantic errors\|Parse Error\|Fatal errors\|Could not" /tmp/sany.$$; then
     echo "SANY FAILED: $f"; tail -20 /tmp/sany.$$; fail=1
